@@ -605,3 +605,94 @@ TWINS["C19_twin_parser_restructured"] = ("C19", [(C, """    if isinstance(value,
     if value.lower() in ["0", "false"]:
         return False
     raise ValueError(error)""")])
+
+# ------------------------------------------------------------------------- C07
+SEEDS["C07_second_call_in_return_path"] = ("C07", [(D, """                    kwargs[output_name] = out
+                    try:
+                        full_fn(*args, **kwargs)""", """                    kwargs[output_name] = fn(*args, **kwargs)
+                    try:
+                        full_fn(*args, **kwargs)""")], "C07.1")
+SEEDS["C07_handler_falls_through"] = ("C07", [(D, """                        if config.jaxtyping_remove_typechecker_stack:
+                            raise TypeCheckError(msg) from None
+                        else:
+                            raise TypeCheckError(msg) from e
+
+                # Actually call the function.""", """                        if config.jaxtyping_remove_typechecker_stack:
+                            raise TypeCheckError(msg) from None
+                        else:
+                            warnings.warn(msg)
+
+                # Actually call the function.""")], "C07.2")
+SEEDS["C07_get_problem_arg_may_return"] = ("C07", [(D, """    else:
+        # Could not localise the problem to a single argument -- probably due to
+        # e.g. a mismatched typevar, which each individual argument is okay with.
+        raise TypeCheckError("")""", """    else:
+        # Could not localise the problem to a single argument -- probably due to
+        # e.g. a mismatched typevar, which each individual argument is okay with.
+        return \"\"""")], "C07.2")
+SEEDS["C07_property_fset_from_fget"] = ("C07", [(D, "            fset = jaxtyped(fn.fset, typechecker=typechecker)", "            fset = jaxtyped(fn.fget, typechecker=typechecker)")], "C07.4")
+SEEDS["C07_classmethod_becomes_staticmethod"] = ("C07", [(D, "        return classmethod(jaxtyped(fn.__func__, typechecker=typechecker))", "        return staticmethod(jaxtyped(fn.__func__, typechecker=typechecker))")], "C07.4")
+SEEDS["C07_wraps_dropped"] = ("C07", [(D, """            @ft.wraps(fn)
+            def wrapped_fn(*args, **kwargs):
+                __tracebackhide__ = True
+
+                if (""", """            def wrapped_fn(*args, **kwargs):
+                __tracebackhide__ = True
+
+                if (""")], "C07")
+SEEDS["C07_gensym_without_param_names"] = ("C07", [(D, """        output_name = _gensym(param_names, prefix="ret")""", """        output_name = _gensym(frozenset(), prefix="ret")""")], "C07.5")
+SEEDS["C07_template_name_unvalidated"] = ("C07", [(D, """    if name.isidentifier() and not keyword.iskeyword(name):
+        def_name = name
+    else:""", """    if True:
+        def_name = name
+    else:""")], "C07.5")
+SEEDS["C07_bind_inside_converting_try"] = ("C07", [(D, """                bound = param_signature.bind(*args, **kwargs)
+                bound.apply_defaults()
+
+                memos = push_shape_memo(bound.arguments)""", """                try:
+                    bound = param_signature.bind(*args, **kwargs)
+                except TypeError as e:
+                    raise TypeCheckError(str(e)) from e
+                bound.apply_defaults()
+
+                memos = push_shape_memo(bound.arguments)""")], "C07.3")
+SEEDS["C07_kwonly_kind_dropped"] = ("C07", [(D, """        elif p.kind == inspect.Parameter.KEYWORD_ONLY:
+            key.append(p)
+""", "")], "C07.6")
+SEEDS["C07_groups_out_of_order"] = ("C07", [(D, """    if len(key) > 0:
+        for p in key:
+            argstr_pieces.append(_make_argpiece(p, name_to_annotation, name_to_default))
+    if len(varkey) == 1:""", """    if len(varkey) == 1:"""), (D, """    else:
+        assert len(varkey) == 0
+    argstr = ", ".join(argstr_pieces)""", """    else:
+        assert len(varkey) == 0
+    if len(key) > 0:
+        for p in key:
+            argstr_pieces.append(_make_argpiece(p, name_to_annotation, name_to_default))
+    argstr = ", ".join(argstr_pieces)""")], "C07.6")
+SEEDS["C07_returns_none"] = ("C07", [(D, """                        else:
+                            raise TypeCheckError(msg) from e
+
+                return out""", """                        else:
+                            raise TypeCheckError(msg) from e
+""")], "C07.1")
+SEEDS["C07_old_style_drops_result"] = ("C07", [(D, """                try:
+                    return fn(*args, **kwargs)
+                except Exception as e:
+                    # add_note""", """                try:
+                    fn(*args, **kwargs)
+                except Exception as e:
+                    # add_note""")], "C07.1")
+SEEDS["C07_call_before_param_check"] = ("C07", [(D, """            def wrapped_fn_impl(args, kwargs, bound, memos):
+                __tracebackhide__ = True
+""", """            def wrapped_fn_impl(args, kwargs, bound, memos):
+                __tracebackhide__ = True
+                out = fn(*args, **kwargs)
+"""), (D, """                # Actually call the function.
+                out = fn(*args, **kwargs)
+""", """                # Already called above.
+""")], "C07.2")
+TWINS["C07_twin_result_renamed"] = ("C07", [(D, """                    return wrapped_fn_impl(args, kwargs, bound, memos)
+                finally:""", """                    result = wrapped_fn_impl(args, kwargs, bound, memos)
+                    return result
+                finally:""")])
